@@ -219,10 +219,13 @@ func (in *Interp) learn(t *Term) {
 					set(a, interval{0, rb.hi})
 					set(b, interval{ra.lo, half})
 				}
-			} else if rb.hi <= half && ra.lo == 0 && ra.hi > half && a.isConst() == false && b.isConst() {
-				// a <s const(>=0) says nothing unsigned unless a known non-negative
-			} else if a.isConst() && a.val <= half && !strict {
-				// const <=s b with b.hi possibly huge: b in [a, half] only if b non-negative; unknown -> skip
+			} else if a.isConst() && a.val <= half {
+				// const(>=0) <(=)s b  =>  b is non-negative: b in [const(+1), half] as unsigned
+				lo := a.val
+				if strict {
+					lo++
+				}
+				set(b, interval{lo, half})
 			}
 		case OEq:
 			if !pos {
